@@ -20,6 +20,13 @@ Sub-checks
   history on ONE object: op, op again (bit-identical, receiver untouched), in-place update of the vectors
           (mul_, add_, tensor().copy_), op again == the op on a fresh object with the updated vectors; op in
           {axes(b) x 4, warp_image, exp}
+  livegrid LIVE Grid objects: a grid that has served conversions / sampling is derived (resize, downsample, upsample,
+          resample, crop, pad), all orders up to depth 3; every conversion a -> b of fields built on EVERY live grid
+          (derived and parents) and sampling of root-grid fields onto the derived grid == float64 vector map of the
+          attributes the grid reports
+  relabel ONE live FlowField / FlowFields: observe (axes x 3, exp, warp_image, sample), relabel the grid in place
+          grid_(g2) (two alternative same-size grids), copy form grid(g2), in-place mul_ of the vectors, observe again;
+          all orders up to depth 3 with >= 1 mutator; reference recomputed from the current (data, grid, axes) record
   helpers core/flow.py normalize_flow / denormalize_flow (argument-form product) == GRID <-> CUBE[_CORNERS]
 """
 from __future__ import annotations
@@ -84,10 +91,11 @@ PROPERTY = "C10"
 RULE = (
     "complete product D x grid menu x batch form x field kind; per configuration every axes() path of the tier "
     "depth from each of the 4 start representations (judged at every node) and every (operation, argument form, "
-    "start representation) triple of warp_image / sample / exp / sitk / write-read; distinct outcome = bit pattern "
+    "start representation) triple of warp_image / sample / exp / sitk / write-read; plus complete histories up to depth 3 on LIVE objects "
+    "(grids derived from an already-used parent grid; one flow object observed, relabelled by grid_()/grid(), updated in place, observed again); distinct outcome = bit pattern "
     "of the returned tensor + label; non-trivial = the result differs from its input tensor by more than 1e-3 relative"
 )
-EXPLANATION = "frame-graph exploration of flow-field representations against a float64 world-space denotation"
+EXPLANATION = "frame-graph exploration of flow-field representations, stateless and on live objects (histories of grid derivations, relabelling and in-place updates up to depth 3), against a float64 world-space denotation"
 ASSUMPTIONS = [
     "a flow field is denoted by its world displacement at the sample positions; inputs are float32 casts of the reference representation, the denotation is taken from the cast input",
     "tolerances: 64 x 2^-23 x depth x (max spacing / min spacing) x max|u| for vector conversions; interpolating operations: 64 x 2^-23 x depth x value scale x (cond + n/2 [+ |world position| / min spacing when sampling between grids]) = coordinate rounding times the steepest slope",
@@ -95,9 +103,9 @@ ASSUMPTIONS = [
     "zeros and border padding only (continuous in the coordinates, identical for both align_corners conventions); linear interpolation",
     "CPU float32; D in {2,3}; sizes <= 9 per axis; path depth 3 (quick) / 4 (thorough, forms single and perfield2; 3 for the others)",
 ]
-MIN_NONTRIVIAL = {"quick": 12000, "thorough": 60000}
-MIN_OUTCOMES = {"quick": 12000, "thorough": 60000}
-MIN_SUB_TRACES = {"axes": 20000, "warp": 800, "sample": 3000, "exp": 1000, "sitk": 300, "file": 300, "helpers": 800, "tovec": 4000, "history": 4000}
+MIN_NONTRIVIAL = {"quick": 50000, "thorough": 150000}
+MIN_OUTCOMES = {"quick": 50000, "thorough": 150000}
+MIN_SUB_TRACES = {"axes": 20000, "warp": 800, "sample": 3000, "exp": 1000, "sitk": 300, "file": 300, "helpers": 800, "tovec": 4000, "history": 4000, "livegrid": 1000, "relabel": 20000}
 
 EPS32 = 2.0 ** -23
 C = 64.0
@@ -184,11 +192,38 @@ def configs(tier: str, seed: int):
                             r = rg.ref_grid(s)
                             kind, amp = (fk, 1.0) if fk != "big" else ("smooth", 2.0)
                             fields.append(ff.make_field(kind, r, seed + j + (1 if fk == "smooth" else 0), amp))
-                        out.append({
+                        cfg = {
                             "D": D, "gname": gname + ("-T" if ac else "-F"), "form": form, "fkind": fk,
                             "grids": grids, "fields": fields, "tier": tier,
-                        })
+                        }
+                        if relabel_enabled(tier, form, fk):
+                            cfg["alt"] = alt_grids(geo, gi, grids, D)
+                        out.append(cfg)
     return out
+
+
+def relabel_enabled(tier: str, form: str, fk: str) -> bool:
+    if tier == "thorough":
+        return fk == "affine" and form != "batch1"
+    return fk == "affine" and form in ("single", "shared2", "perfield2")
+
+
+def alt_grids(geo, gi: int, grids, D: int):
+    """Two alternative grid lists of the SAME size for the in-place relabelling grid_(g2): A = another geometry of the
+    menu with the flag flipped; B = the same geometry re-spaced, rotated by 20 degrees and shifted."""
+    A, B = [], []
+    for j, g in enumerate(grids):
+        other = geo[(gi + j + 2) % len(geo)][1]
+        a = dict(other)
+        a["size"] = list(g["size"])
+        a["ac"] = not g["ac"]
+        A.append(a)
+        r = rg.ref_grid(g)
+        sp = [float(v) for v in (r.s * np.array([1.5, 0.75, 1.25][:D]))]
+        b = {"size": list(g["size"]), "spacing": sp, "center": [float(v) for v in (r.c + 0.3 * r.s)],
+             "direction": (r.R @ ff.rot_about(D, 20.0)).tolist(), "ac": bool(g["ac"])}
+        B.append(b)
+    return {"A": A, "B": B}
 
 
 def depth_of(tier: str, form: str = "single") -> int:
@@ -207,6 +242,10 @@ def bounds(tier):
         "axes_paths_per_configuration": {f: 4 ** (depth_of(tier, f) + 1) for f in forms(tier)},
         "exp_menu": [list(x) for x in exp_menu(tier)],
         "sample_targets": target_names(tier),
+        "livegrid": {"alphabet": list(LG_OBS + LG_DERIVE), "depth": 3, "histories_per_configuration": len(livegrid_histories(tier)),
+                     "configurations": sum(1 for c in cf if c["form"] == "single" and (tier == "thorough" or c["fkind"] == "affine"))},
+        "relabel": {"alphabet": list(RL_OBS + RL_MUT), "depth": 3, "histories_per_configuration_and_start": len(relabel_histories(tier)),
+                    "configurations": sum(1 for c in cf if c.get("alt"))},
         "paddings": ["default(zeros)", "border"],
     }
 
@@ -1237,6 +1276,403 @@ def run_history(ctx: Ctx, op: str, arg, upd: str, starts=AXES):
 
 
 # ---------------------------------------------------------------------------
+# LIVE-OBJECT HISTORIES (round 4)
+def _live_ctx(form: str, D: int, gspecs, rgrids, den):
+    """A Ctx for the CURRENT record of a live object: reference grids and the world field it denotes right now."""
+    c = Ctx.__new__(Ctx)
+    c.cfg = {"grids": gspecs, "form": form, "D": D}
+    c.form, c.D, c.N, c.single = form, D, len(rgrids), form == "single"
+    c.rgrids, c.u = rgrids, den
+    c.umax = max(float(np.abs(u).max()) for u in den)
+    c.smin = min(float(r.s.min()) for r in rgrids)
+    c.cond = max(ff.cond_spacing(r) for r in rgrids)
+    c.nmax = max(float(r.n.max()) for r in rgrids)
+    c.uscale = max(c.umax, 1e-3 * c.smin)
+    return c
+
+
+def _spec_of(r: RefGrid):
+    return {"size": [int(v) for v in r.n], "spacing": [float(v) for v in r.s], "center": [float(v) for v in r.c], "direction": r.R.tolist(), "ac": bool(r.ac)}
+
+
+# (a) live Grid objects: a grid that already served conversions is derived; fields on the DERIVED grid must follow the
+#     derived grid's own vector map (reference = float64 model of the attributes the derived grid reports)
+LG_DERIVE = ("resize", "downsample", "upsample", "resample", "crop", "pad")
+LG_OBS = ("conv", "sample")
+
+
+def livegrid_histories(tier: str):
+    alpha = LG_OBS + LG_DERIVE
+    out = []
+    for x1 in alpha:
+        for x2 in LG_OBS:
+            if x1 in LG_DERIVE:
+                out.append([x1, x2])
+    for x1 in alpha:
+        for x2 in alpha:
+            if x1 in LG_DERIVE or x2 in LG_DERIVE:
+                for x3 in LG_OBS:
+                    out.append([x1, x2, x3])
+    return out
+
+
+def _derive(g, name: str):
+    n = [int(v) for v in g.size()]
+    if name == "resize":
+        return g.resize(tuple(v + 2 for v in n))
+    if name == "downsample":
+        return g.downsample(1)
+    if name == "upsample":
+        return g.upsample(1)
+    if name == "resample":
+        return g.resample(g.spacing() * 0.8)
+    if name == "crop":
+        return g.crop(1)
+    if name == "pad":
+        return g.pad(1)
+    raise KeyError(name)
+
+
+def _derive_enabled(r: RefGrid, name: str) -> bool:
+    n = r.n
+    if name == "downsample":
+        return bool(np.all(np.ceil(n / 2) >= 2))
+    if name == "crop":
+        return bool(np.all(n - 2 >= 2))
+    if name in ("upsample", "resample", "pad", "resize"):
+        return bool(np.all(n <= 12))
+    return True
+
+
+def run_livegrid(ctx: Ctx, hist):
+    from deepali.core.grid import Axes, Grid
+    from deepali.data.flow import FlowField
+
+    rec = Rec()
+    field = ctx.cfg["fields"][0]
+    st, g0 = guarded(rg.real_grid, ctx.cfg["grids"][0])
+    if st == "raises":
+        rec.add(f"C10/construct-grid/raises={type(g0).__name__}", exc_text(g0))
+        return rec
+    pool = [g0]  # every live grid of this history, oldest first; the last one is the current grid
+    done = []
+    for op in hist:
+        after = ",".join(done) if done else "start"
+        cur = pool[-1]
+        if op in LG_DERIVE:
+            rcur = RefGrid.from_real(cur)
+            if not _derive_enabled(rcur, op):
+                rec.undef.append("livegrid: derivation outside the domain (size < 2 or > 12)")
+                return rec
+            st, g2 = rec.call(_derive, cur, op)
+            if st == "raises" or not isinstance(g2, Grid):
+                rec.undef.append("livegrid: the grid derivation itself failed (property C03, not judged here)")
+                return rec
+            pool.append(g2)
+        elif op == "conv":
+            # every live grid (parents too: deriving must not disturb them), every edge a -> b of fields built on it
+            for gi, g in enumerate(pool):
+                r = RefGrid.from_real(g)
+                if np.any(r.n < 2):
+                    rec.undef.append("livegrid: derived grid with a single-sample axis")
+                    return rec
+                u = ff.field_on_grid(field, r)
+                uscale = max(float(np.abs(u).max()), 1e-3 * float(r.s.min()))
+                tol = C * EPS32 * 3 * ff.cond_spacing(r) * uscale
+                which = "current" if gi == len(pool) - 1 else "parent"
+                for a in AXES:
+                    v = ff.represent(r, u, a).astype(np.float32)
+                    den = ff.to_world(r, v.astype(np.float64), a)
+                    st, F = guarded(lambda: FlowField(torch.from_numpy(v.copy()), g, Axes(a)))
+                    if st == "raises":
+                        rec.add(f"C10/livegrid/after={after}/construct/raises={type(F).__name__}", exc_text(F))
+                        continue
+                    for b in AXES:
+                        if b == a:
+                            continue
+                        pre = f"C10/livegrid/after={after}/conv[{which}]/{a}->{b}"
+                        st, res = rec.call(F.axes, Axes(b))
+                        if st == "raises":
+                            rec.add(f"{pre}/raises={type(res).__name__}", exc_text(res))
+                            continue
+                        st, o = guarded(lambda: res.tensor().double().numpy())
+                        if st == "raises" or o.shape != den.shape:
+                            rec.add(f"{pre}/shape", "result not observable or of another shape")
+                            continue
+                        err = float(np.abs(ff.to_world(r, o, b) - den).max())
+                        if not err <= tol:
+                            rec.add(f"{pre}/value", f"field on a grid derived by [{after}] (size {r.n.tolist()}, spacing {r.s.tolist()}): conversion does not follow the grid's own vector map, world error {err:.3e} > tol {tol:.2e} (max|u| {uscale:.3g})")
+                        rec.results.append(("livegrid", after, which, a, b, tensor_bytes(res.tensor())))
+            rec.nontrivial += 1
+        elif op == "sample":
+            # fields living on the ROOT grid are sampled onto the current (derived) grid
+            if len(pool) == 1:
+                done.append(op)
+                continue
+            r0 = RefGrid.from_real(g0)
+            rt = RefGrid.from_real(cur)
+            if np.any(rt.n < 2):
+                rec.undef.append("livegrid: derived grid with a single-sample axis")
+                return rec
+            u0 = ff.field_on_grid(field, r0)
+            lc = _live_ctx("single", ctx.D, [_spec_of(r0)], [r0], [u0])
+            tol = lc.tol_interp(lc.uscale, 2, max(r0.scale(), rt.scale()))
+            for a in AXES:
+                pre = f"C10/livegrid/after={after}/sample/start={a}"
+                v = ff.represent(r0, u0, a).astype(np.float32)
+                den = ff.to_world(r0, v.astype(np.float64), a)
+                st, F = guarded(lambda: FlowField(torch.from_numpy(v.copy()), g0, Axes(a)))
+                if st == "raises":
+                    rec.add(f"C10/livegrid/after={after}/construct/raises={type(F).__name__}", exc_text(F))
+                    continue
+                st, res = rec.call(F.sample, cur)
+                if st == "raises":
+                    rec.add(f"{pre}/raises={type(res).__name__}", exc_text(res))
+                    continue
+                st, got = guarded(lambda: (res.tensor().double().numpy(), res.axes(), res.grid()))
+                if st == "raises":
+                    rec.add(f"{pre}/unobservable", exc_text(got))
+                    continue
+                o, lab, rgd = got
+                if lab is not Axes(a):
+                    rec.add(f"{pre}/label", f"axes() is {lab!r}, expected {a}")
+                    continue
+                if res is F:
+                    continue  # the derived grid compares equal to the root grid (e.g. crop then pad): nothing sampled
+                exp = ff.sample_reference(den, r0, rt, "zeros")
+                if o.shape != exp.shape:
+                    rec.add(f"{pre}/shape", f"shape {o.shape} expected {exp.shape}")
+                    continue
+                err = float(np.abs(ff.to_world(rt, o, a) - exp).max())
+                if not err <= tol:
+                    rec.add(f"{pre}/value", f"field sampled onto a grid derived by [{after}]: vectors w.r.t. the new grid differ from the resampled world field by {err:.3e} > tol {tol:.2e}")
+                rec.results.append(("livegrid-sample", after, a, tensor_bytes(res.tensor())))
+            rec.nontrivial += 1
+        done.append(op)
+    return rec
+
+
+# (b) one live FlowField / FlowFields object: observe, relabel the grid in place (grid_) or by the copy form (grid),
+#     change the vectors in place, observe again; the reference is recomputed from the current (data, grid, axes) record
+RL_OBS = ("conv", "exp", "warp", "sample")
+RL_MUT = ("grid_A", "grid_B", "gridcopy_A", "mul_")
+
+
+def relabel_histories(tier: str):
+    alpha = RL_OBS + RL_MUT
+    out = []
+    for x1 in RL_MUT:
+        for x2 in RL_OBS:
+            out.append([x1, x2])
+    for x1 in alpha:
+        for x2 in alpha:
+            if x1 in RL_MUT or x2 in RL_MUT:
+                for x3 in RL_OBS:
+                    out.append([x1, x2, x3])
+    return out
+
+
+def _grids_arg(form: str, grids):
+    return grids[0] if form in ("single", "batch1", "shared2") else list(grids)
+
+
+def _relabel_observe(rec: Rec, pre: str, lc: Ctx, F, grids, a: str, op: str):
+    """One observing operation on the live object, judged against the current record held by lc."""
+    from deepali.core.grid import Axes
+    from deepali.data.image import Image, ImageBatch
+
+    den = lc.u
+    if op == "conv":
+        for b in AXES:
+            if b == a:
+                continue
+            p2 = f"{pre}/op=axes({b})"
+            st, res = rec.call(F.axes, Axes(b))
+            if st == "raises":
+                rec.add(f"{p2}/raises={type(res).__name__}", exc_text(res))
+                continue
+            if not _flow_meta(rec, p2, lc, res, b, grids, lc.single):
+                continue
+            st, obs = guarded(items_of, res, lc.single)
+            if st == "raises" or len(obs) != lc.N or any(o.shape != u.shape for o, u in zip(obs, den)):
+                rec.add(f"{p2}/shape", "result not observable or of another shape")
+                continue
+            tol = lc.tol_vec(3)
+            for j, (o, r, u) in enumerate(zip(obs, lc.rgrids, den)):
+                err = float(np.abs(ff.to_world(r, o, b) - u).max())
+                if not err <= tol:
+                    rec.add(f"{p2}/value", f"item {j}: conversion does not follow the vector map of the grid the field is on NOW: world error {err:.3e} > tol {tol:.2e} (max|u| {lc.umax:.3g})")
+            rec.results.append(("relabel", pre, b, result_key(res, lc.single)))
+        return
+    if op == "exp":
+        p2 = f"{pre}/op=exp"
+        st, res = rec.call(F.exp, steps=3)
+        if st == "raises":
+            rec.add(f"{p2}/raises={type(res).__name__}", exc_text(res))
+            return
+        if not _flow_meta(rec, p2, lc, res, a, grids, lc.single):
+            return
+        st, obs = guarded(items_of, res, lc.single)
+        if st == "raises" or len(obs) != lc.N or any(o.shape != u.shape for o, u in zip(obs, den)):
+            rec.add(f"{p2}/shape", "result not observable or of another shape")
+            return
+        for j in range(lc.N):
+            exp = ff.exp_reference(den[j], lc.rgrids[j], 1.0, 3)
+            scl = max(float(np.abs(exp).max()), lc.uscale)
+            tol = lc.tol_interp(scl, 5)
+            err = float(np.abs(ff.to_world(lc.rgrids[j], obs[j], a) - exp).max())
+            if not err <= tol:
+                rec.add(f"{p2}/value", f"item {j}: exp() is not the exponential of the field on its CURRENT grid: world error {err:.3e} > tol {tol:.2e}")
+        rec.results.append(("relabel", pre, "exp", result_key(res, lc.single)))
+        return
+    if op == "warp":
+        p2 = f"{pre}/op=warp"
+        imgform = "Image" if lc.form in ("single", "batch1", "shared2") else "ImageBatch"
+        st, im = guarded(real_image, lc, grids, imgform)
+        if st == "raises":
+            rec.add(f"C10/construct-image/{imgform}/raises={type(im).__name__}", exc_text(im))
+            return
+        image, arrs = im
+        st, res = rec.call(F.warp_image, image)
+        if st == "raises":
+            rec.add(f"{p2}/raises={type(res).__name__}", exc_text(res))
+            return
+        single_out = lc.single
+        if not isinstance(res, Image if single_out else ImageBatch):
+            rec.add(f"{p2}/type", f"returned {type(res).__name__}")
+            return
+        st, obs = guarded(items_of, res, single_out)
+        if st == "raises" or len(obs) != lc.N:
+            rec.add(f"{p2}/shape", "result not observable")
+            return
+        for j in range(lc.N):
+            img = (arrs[0] if imgform == "Image" else arrs[j]).astype(np.float64)
+            if obs[j].shape != img.shape:
+                rec.add(f"{p2}/shape", f"shape {obs[j].shape}")
+                continue
+            exp = ff.warp_reference(img, lc.rgrids[j], den[j], "zeros")
+            tol = lc.tol_interp(float(np.abs(img).max()))
+            err = float(np.abs(obs[j] - exp).max())
+            if not err <= tol:
+                rec.add(f"{p2}/value", f"item {j}: warped image differs from image(x + u(x)) on the CURRENT grid by {err:.3e} > tol {tol:.2e}")
+        rec.results.append(("relabel", pre, "warp", tensor_bytes(res.tensor())))
+        return
+    if op == "sample":
+        p2 = f"{pre}/op=sample"
+        tspec = target_spec(lc.cfg["grids"][0], "sub")
+        rt = rg.ref_grid(tspec)
+        st, tg = guarded(rg.real_grid, tspec)
+        if st == "raises":
+            rec.add(f"C10/construct-grid/raises={type(tg).__name__}", exc_text(tg))
+            return
+        st, res = rec.call(F.sample, tg)
+        if st == "raises":
+            rec.add(f"{p2}/raises={type(res).__name__}", exc_text(res))
+            return
+        st, got = guarded(lambda: (items_of(res, lc.single), res.axes(), grids_of(res, lc.single)))
+        if st == "raises":
+            rec.add(f"{p2}/unobservable", exc_text(got))
+            return
+        obs, lab, gs = got
+        if lab is not Axes(a):
+            rec.add(f"{p2}/label", f"axes() is {lab!r}, expected {a}")
+            return
+        if len(obs) != lc.N or len(gs) != lc.N or any(not same_geometry(g, rt) for g in gs):
+            rec.add(f"{p2}/grid", "result is not one field per input on the requested grid")
+            return
+        pos = max([r.scale() for r in lc.rgrids] + [rt.scale()])
+        tol = lc.tol_interp(lc.uscale, 2, pos)
+        for j in range(lc.N):
+            exp = ff.sample_reference(den[j], lc.rgrids[j], rt, "zeros")
+            if obs[j].shape != exp.shape:
+                rec.add(f"{p2}/shape", f"item {j}: shape {obs[j].shape} expected {exp.shape}")
+                continue
+            err = float(np.abs(ff.to_world(rt, obs[j], a) - exp).max())
+            if not err <= tol:
+                rec.add(f"{p2}/value", f"item {j}: sampled field differs from the resampling of the field on its CURRENT grid by {err:.3e} > tol {tol:.2e}")
+        rec.results.append(("relabel", pre, "sample", result_key(res, lc.single)))
+        return
+    raise KeyError(op)
+
+
+def run_relabel(ctx: Ctx, hist, starts=AXES):
+    rec = Rec()
+    form, D = ctx.form, ctx.D
+    alt = ctx.cfg.get("alt")
+    if not alt:
+        return rec
+    for a in starts:
+        st, built = guarded(ctx.build, a)
+        if st == "raises":
+            rec.add(f"C10/construct/{form}/start={a}/raises={type(built).__name__}", exc_text(built))
+            continue
+        F, grids = built
+        data = [x.copy() for x in ctx.start_arrays(a)]
+        gspecs = list(ctx.cfg["grids"])
+        done = []
+        for op in hist:
+            after = ",".join(done) if done else "start"
+            pre = f"C10/relabel/{form}/after={after}/start={a}"
+            if op in RL_OBS:
+                rgrids = [rg.ref_grid(sp) for sp in gspecs]
+                den = [ff.to_world(r, d.astype(np.float64), a) for r, d in zip(rgrids, data)]
+                lc = _live_ctx(form, D, gspecs, rgrids, den)
+                _relabel_observe(rec, pre, lc, F, grids, a, op)
+                rec.nontrivial += 1 if done and any(x in RL_MUT for x in done) else 0
+            elif op == "mul_":
+                st, e = rec.call(lambda: F.mul_(0.5))
+                if st == "raises":
+                    rec.add(f"{pre}/mul_/raises={type(e).__name__}", exc_text(e))
+                    break
+                data = [(d * np.float32(0.5)).astype(np.float32) for d in data]
+            else:
+                which = op[-1]
+                specs2 = alt[which]
+                st, g2 = guarded(lambda: [rg.real_grid(sp) for sp in specs2])
+                if st == "raises":
+                    rec.add(f"C10/construct-grid/raises={type(g2).__name__}", exc_text(g2))
+                    break
+                if form == "shared2":
+                    g2 = [g2[0]] * len(g2)
+                    specs2 = [specs2[0]] * len(specs2)
+                if op.startswith("grid_"):
+                    st, r = rec.call(F.grid_, _grids_arg(form, g2))
+                    if st == "raises":
+                        rec.add(f"{pre}/{op}/raises={type(r).__name__}", exc_text(r))
+                        break
+                    if r is not F:
+                        rec.add(f"{pre}/{op}/not-in-place", "grid_() did not return the object itself")
+                        break
+                else:  # copy form: the copy lives on g2, the original must stay on its grid
+                    old_keys = [grid_key(g) for g in grids_of(F, ctx.single)]
+                    st, G = rec.call(F.grid, _grids_arg(form, g2))
+                    if st == "raises":
+                        rec.add(f"{pre}/{op}/raises={type(G).__name__}", exc_text(G))
+                        break
+                    st, same = guarded(lambda: [grid_key(g) for g in grids_of(F, ctx.single)] == old_keys)
+                    if st == "raises" or not same:
+                        rec.add(f"{pre}/{op}/original-changed", "grid(g2) changed the grid of the object it was called on")
+                        break
+                    if type(G) is not type(F):
+                        rec.add(f"{pre}/{op}/type", f"grid(g2) returned {type(G).__name__}")
+                        break
+                    F = G
+                grids, gspecs = g2, list(specs2)
+                st, ok = guarded(lambda: [grid_key(x) for x in grids_of(F, ctx.single)] == [grid_key(x) for x in grids])
+                if st == "raises" or not ok:
+                    rec.add(f"{pre}/{op}/grid-not-set", "grid()/grids() does not report the new grid")
+                    break
+            # the record the harness keeps must be what the object reports
+            st, cur = guarded(lambda: F.tensor().detach().numpy())
+            exp = data[0] if ctx.single else np.stack(data)
+            if st == "raises" or cur.shape != exp.shape or not np.array_equal(cur, exp):
+                rec.add(f"{pre}/{op}/data-changed", "the vectors of the live object are not the expected ones after this step")
+                break
+            done.append(op)
+    return rec
+
+
+# ---------------------------------------------------------------------------
 def op_cases(ctx: Ctx, tier: str):
     """All (sub, params) cases of the operation sub-checks for a configuration."""
     out = []
@@ -1255,6 +1691,12 @@ def op_cases(ctx: Ctx, tier: str):
     for op, arg in history_ops(tier):
         for upd in UPDATES:
             out.append(("history", {"op": op, "arg": arg, "update": upd}))
+    if ctx.single and (tier == "thorough" or ctx.cfg["fkind"] == "affine"):
+        for h in livegrid_histories(tier):
+            out.append(("livegrid", {"hist": h}))
+    if ctx.cfg.get("alt"):
+        for h in relabel_histories(tier):
+            out.append(("relabel", {"hist": h}))
     if ctx.form != "batch1":  # batch1 holds the same tensors as single
         for p in helper_cases():
             out.append(("helpers", p))
@@ -1294,6 +1736,10 @@ def _run_op(ctx: Ctx, sub: str, p: dict, starts=AXES) -> Rec:
         return run_tovec(ctx, p["target"])
     if sub == "history":
         return run_history(ctx, p["op"], p["arg"], p["update"], starts)
+    if sub == "livegrid":
+        return run_livegrid(ctx, list(p["hist"]))
+    if sub == "relabel":
+        return run_relabel(ctx, list(p["hist"]), starts)
     raise KeyError(sub)
 
 
@@ -1320,7 +1766,9 @@ def run_shard(shard) -> Acc:
             acc.outcome(k)
             if rec.nontrivial:
                 acc.nontriv(k)
-        acc.trace(sub, n=1 if sub in ("helpers", "default") else (16 if sub == "tovec" else len(AXES)), depth=1)
+        for reason in rec.undef:
+            acc.undef(reason)
+        acc.trace(sub, n=1 if sub in ("helpers", "default", "livegrid") else (16 if sub == "tovec" else len(AXES)), depth=len(p["hist"]) if "hist" in p else 1)
         if len(acc.samples) < 3 and sub in ("sample", "exp"):
             acc.sample({"config": brief, "sub": sub, "params": p, "starts": list(AXES), "verdict": "ok" if not rec.problems else "violation"})
     return acc
